@@ -212,6 +212,28 @@ def verify_unit(unit, tier):
     r['meta'] = meta
     return r
 
+def callers_cone(out_rs, meta, target):
+    """functions of the assembled unit that call `target` directly or through other extracted functions (by short name:
+    an over-approximation, which only makes more properties undecided)"""
+    try:
+        lines = open(out_rs).read().split('\n')
+    except Exception:
+        return set()
+    short = lambda q: q.split('::')[-1]
+    bodies = {}
+    for (a, b, q, saf) in meta['fn_ranges']:
+        bodies[q] = '\n'.join(lines[a - 1:b])
+    names = set(short(q) for q in bodies)
+    calls = {q: set(n for n in names if re.search(r'\b' + re.escape(n) + r'\s*\(', txt.split('{', 1)[1] if '{' in txt else '')) for q, txt in bodies.items()}
+    cone, frontier = set(), {short(target)}
+    while frontier:
+        nxt = set()
+        for q, cs in calls.items():
+            if q not in cone and q != target and cs & frontier:
+                cone.add(q); nxt.add(short(q))
+        frontier = nxt
+    return cone
+
 def load_known():
     p = os.path.join(ROOT, 'known_findings.json')
     if os.path.exists(p):
@@ -282,6 +304,14 @@ def main():
         for d in meta.get('degraded_fns', []):
             props = set(d.get('safety', []))
             for oid, pr in d.get('obligations', {}).items(): props |= set(pr)
+            # ... and every property carried by a function that (transitively) calls the degraded one: their proofs
+            # rest on its contract, which is an assumption in this run
+            cone = callers_cone(r.get('out_rs') or os.path.join(UNITS_OUT, unit + '.rs'), meta, d['fn'])
+            for q in cone:
+                for (a, b, q2, saf) in meta['fn_ranges']:
+                    if q2 == q: props |= set(saf)
+                for oid, o in meta['obligations'].items():
+                    if o.get('fn') == q: props |= set(o['props'])
             if pid in props:
                 mine = sorted(oid for oid, pr in d.get('obligations', {}).items() if pid in pr)
                 undecided.append('unit %s: lost anchor: %s could not be kept under contract after the change (%s); undecided obligations: %s' % (unit, d['fn'].split('::')[-1], d['reason'][:300], ', '.join(mine) or 'safety'))
@@ -455,7 +485,7 @@ def main():
         # The verifier could not decide (lost anchor, construct outside the subset, ...).  Before giving up, the
         # run-time twins of the property statements are run against the real code: a concrete failing input on the
         # real code is a violation whatever the verifier's state; finding none leaves the result UNDECIDED.
-        structural = [u for u in undecided if ('lost anchor' in u or 'front-end error' in u or 'tooling error' in u)]
+        structural = [u for u in undecided if ('lost anchor' in u or 'front-end error' in u or 'tooling error' in u or 'did not produce a verdict' in u)]
         if structural and not os.environ.get('VERIF_NO_TWIN_FALLBACK'):
             try:
                 import replaytool, witness
